@@ -156,7 +156,7 @@ def trace_record(run, text, optargs, cfgrec, cfgt, keeppen=0, name=""):
 
 RUN_INV = {
     "C01": ["C01_Census", "C01_ExactlyOnce", "C01_Bridge", "C01_Ligands", "C01_SummaryNotPenalised",
-            "C01_SummaryNothingElse", "C01_SummaryPenalisedToo", "C01_SummaryModel", "C01_OneResiduePerPosition"],
+            "C01_SummaryNothingElse", "C01_SummaryPenalisedToo", "C01_SummaryModel", "C01_OneResiduePerPosition", "C01_Identity"],
     "C02": ["C02_SumIdentity", "C02_RenderedTable", "C02_RenderedSummary"],
     "C15": ["C15_Symmetric", "C15_StarIffPartner", "C15_FileStars"],
     "C16": ["C16_Desolvation", "C16_Buried", "C16_Backbone", "C16_CoulombSign", "C16_CoulombBound",
@@ -219,6 +219,12 @@ def base_cases(ctx):
     cases.append(("frag-3SGB-I0+12", corpus.fragment("3SGB", "I", 0, 12), []))
     cases.append(("frag-1FTJ-A100+30", corpus.fragment("1FTJ-Chain-A", "A", 100, 30), []))
     cases.append(("none", corpus.no_group_structure(), []))
+    # residue numbers that fill the four columns of their field; a chain holding 26-33 and 1026-1033
+    f8 = corpus.chain_lines("1HPX", "A", 25, 8)
+    cases.append(("frag-1HPX-A25+8 numbered from 1026", corpus.join(corpus.shift_numbers(f8, 1000) + [corpus.TER]), []))
+    cases.append(("frag-1HPX-A25+8 numbered from -174", corpus.join(corpus.shift_numbers(f8, -200) + [corpus.TER]), []))
+    far8 = corpus.translate(corpus.shift_numbers(f8, 1000), 40000, 0, 0)
+    cases.append(("frag-1HPX-A25+8 and its copy numbered +1000 in one chain", corpus.join(f8 + [corpus.TER] + far8 + [corpus.TER]), []))
     # small multi-conformation inputs (alternate locations, MODEL records, point mutants between conformations): every
     # run-level property sees them, not only C08
     from .props import c08
